@@ -45,9 +45,10 @@ structure OpInfo where
   returns : Bool
   hasMem : Bool       -- memorySize ≠ nil
   minGas : Nat        -- constant part of the gas function
+  constGas : Bool     -- the gas function returned the same value on every probe (no memory function, no dynamic part)
   deriving DecidableEq, Repr, Inhabited
 
-def OpInfo.invalid : OpInfo := ⟨false, 0, 0, false, false, false, false, false, false, 0⟩
+def OpInfo.invalid : OpInfo := ⟨false, 0, 0, false, false, false, false, false, false, 0, false⟩
 
 structure Params where
   callCreateDepth : Nat
@@ -63,6 +64,10 @@ structure Params where
   opCallCode : Nat
   opDelegateCall : Nat
   opStaticCall : Nat
+  /-- ChangeLogType numbers of the change logs the platform itself pushes (balance, code, event) -/
+  logBalance : Nat
+  logCode : Nat
+  logEvent : Nat
   /-- addresses of the precompiles the code declares state-modifying (`precompileWritesState`) -/
   writingPre : List Nat
   /-- `RunPrecompiledContract` refuses a state-modifying precompile under readOnly
@@ -78,6 +83,7 @@ def Table.info (T : Table) (op : Nat) : OpInfo := T.rows.getD op OpInfo.invalid
 
 inductive Kind where
   | call | callCode | delegateCall | staticCall | create
+  | asset   -- frame started by `EVM.TransferAssetTx` (only ever the outermost frame)
   deriving DecidableEq, Repr
 
 def Table.kindOf (T : Table) (op : Nat) : Option Kind :=
@@ -90,7 +96,7 @@ def Table.kindOf (T : Table) (op : Nat) : Option Kind :=
 
 /-- journal entries (what `LogProcessor.changeLogs` holds, by origin) -/
 inductive Entry where
-  | write                    -- pushed by an executed state-writing instruction or precompile
+  | write (tag : Nat)        -- pushed by an executed state-writing instruction or precompile (`tag` = ChangeLogType)
   | transfer (value : Bool)  -- one of the two balance logs of `evm.Transfer` (`value`: amount ≠ 0)
   | code                     -- `SetCode` of a successful CREATE
   | event (fail : Bool)      -- platform event: TopicRunFail (`true`) / TopicContractCreation
@@ -100,7 +106,7 @@ inductive Callee where
   | none                     -- not a call
   | empty                    -- no code, not a precompile
   | code                     -- non-empty code: a new interpreter frame
-  | pre (addr req : Nat) (ok : Bool) (writes : Nat)  -- precompile: address, RequiredGas, Run succeeded, journal pushes
+  | pre (addr req : Nat) (ok : Bool) (wtags : List Nat)  -- precompile: address, RequiredGas, Run succeeded, journal pushes
   | loadFail                 -- GetCode failed
   | collision                -- CREATE: target account not empty
   deriving DecidableEq, Repr
@@ -113,7 +119,7 @@ structure Choice where
   memOverflow : Bool := false
   gasErr : Bool := false     -- the gas function itself returned an error
   execErr : Bool := false    -- `execute` returned an error (bad jump, return data out of bounds, …)
-  writes : Nat := 0          -- journal pushes of a state-writing instruction
+  wtags : List Nat := []     -- journal pushes of a state-writing instruction (their ChangeLogTypes)
   retLen : Nat := 0          -- length of the returned data of a halting instruction
   value : Bool := false      -- CALL/CALLCODE/CREATE: value ≠ 0
   reqGas : Nat := 0          -- CALL*: requested gas (any 256-bit number)
@@ -209,7 +215,7 @@ def runCallee (P : Params) (m' : Machine) (f : Frame) (parents : List Frame) (ga
     else if gas < req then finishFrame P m' f parents .failed 0 0               -- ErrOutOfGas
     else if ok then
       -- only a precompile declared state-modifying pushes journal entries
-      finishFrame P { m' with journal := m'.journal ++ List.replicate (if addr ∈ P.writingPre then w else 0) .write }
+      finishFrame P { m' with journal := m'.journal ++ (if addr ∈ P.writingPre then w else []).map .write }
         f parents .ok (gas - req) 0
     else finishFrame P m' f parents .failed (gas - req) 0
   | _ => finishFrame P m' f parents .ok gas 0                                   -- no code: Run returns at once
@@ -295,7 +301,7 @@ def step (T : Table) (m : Machine) (c : Choice) : Machine :=
         if c.execErr then finishFrame T.params m f rest .failed 0 0
         else
           let info := T.info c.op
-          let m1 := { m with journal := if info.writes then m.journal ++ List.replicate c.writes .write else m.journal }
+          let m1 := { m with journal := if info.writes then m.journal ++ c.wtags.map .write else m.journal }
           if info.reverts then finishFrame T.params m1 f rest .reverted g 0
           else if info.halts then finishFrame T.params m1 f rest .ok g c.retLen
           else { m1 with frames := { f with gas := g } :: rest }
@@ -305,6 +311,17 @@ def step (T : Table) (m : Machine) (c : Choice) : Machine :=
 /-- an external `evm.Call` / `evm.StaticCall` / `evm.Create` at depth 0 -/
 def begin (T : Table) (k : Kind) (gas : Nat) (value canTransfer : Bool) (callee : Callee) : Machine :=
   enter T.params Machine.init k gas value canTransfer callee
+
+/-- `EVM.TransferAssetTx` at depth 0 (the sixth entry point). `pre` = an argument/asset check failed
+    before anything was written (gas handed back, non-VM error); otherwise `Snapshot()`, return at
+    once for a code-less recipient and a zero amount, else push the equity / total-supply change logs
+    (`wtags`) and run the recipient's code; on a VM error revert and consume the gas (no platform
+    event, no lemo transfer). -/
+def beginAsset (T : Table) (gas : Nat) (early : Bool) (amountZero : Bool) (wtags : List Nat) (callee : Callee) : Machine :=
+  if early then giveBack Machine.init .failed gas
+  else if callee = .loadFail then giveBack Machine.init .failed gas
+  else if callee = .empty ∧ amountZero = true then giveBack Machine.init .ok gas
+  else runCallee T.params { Machine.init with journal := wtags.map .write } (newFrame Machine.init .asset gas) [] gas callee
 
 def sumGas : List Frame → Nat
   | [] => 0
